@@ -682,6 +682,8 @@ def nansum(a, axis=None, **k):
 def _extreme(a, axis, less):
     a = _arr(a)
     ctx = Ctx.cur
+    if a.ndim == 0:
+        return a.item()
     if axis is not None or a.ndim != 1:
         if a.ndim == 2 and axis is None:
             a = a.flatten()
